@@ -7,80 +7,9 @@ E2E: random programs on the real simulators with the property's own oracle."""
 import simcorr
 import simgen
 from framework import fresh_import
+from simcheck import t_bias, check_step_oracle, single_step
 
 PROPS = 'SkoolVerif.Props.C08'
-
-
-def t_bias(r):
-    k = r.randrange(6)
-    if k == 0:
-        return r.randrange(14335 - 40, 14335 + 300)
-    if k == 1:
-        return r.randrange(57245 - 300, 57245 + 40)
-    if k == 2:
-        return 14335 + 224 * r.randrange(192) + r.randrange(-8, 140)
-    if k == 3:
-        return r.randrange(69888 * 3)
-    if k == 4:
-        return 69888 * r.randrange(1, 4) + r.randrange(40)
-    return r.randrange(14000, 58000)
-
-
-def check_step_oracle(regs, fields, mem, out_line):
-    """The property itself on one step of a real simulator: ranges, ROM, T monotone."""
-    parts = out_line.split(';')
-    if len(parts) != 6:
-        return 'exception', out_line[:200]
-    r = list(map(int, parts[0].split()))
-    f = list(map(int, parts[1].split()))
-    for i, v in enumerate(r):
-        hi = 65536 if i == 12 else 256
-        if not 0 <= v < hi:
-            return 'register-range', f'register {i} = {v}'
-    if not 0 <= f[0] < 65536:
-        return 'pc-range', f'PC = {f[0]}'
-    if f[1] < fields[1]:
-        return 'clock-decreased', f'T {fields[1]} -> {f[1]}'
-    if f[2] not in (0, 1) or f[3] not in (0, 1, 2) or f[4] not in (0, 1) or not 0 <= f[5] < 65536:
-        return 'state-range', f'IFF/IM/HALT/MEMPTR = {f[2:6]}'
-    for w in parts[4].split():
-        a, v = map(int, w.split(':'))
-        if a < 0x4000:
-            return 'rom-write', f'write {v} to ROM address {a}'
-        if not 0 <= v < 256:
-            return 'cell-range', f'memory[{a}] = {v}'
-    return None
-
-
-def single_step(chk, impls):
-    """Per-slot differential execution of the real simulators against the generated models, plus the
-    property's oracle on every real result."""
-    rng = chk.rng
-    n = chk.scale(3, 40)
-    for name, wrapper, driver, is_c in impls:
-        ops, outs, mems, states = [], [], [], []
-        for tbl, op in simcorr.all_slots():
-            for _ in range(n):
-                st = simcorr.rand_state(rng, tbl, op, t_bias=t_bias)
-                if is_c:
-                    st[4][0] = 1 if (st[4][0] or st[4][1] or st[4][2]) else 0
-                ops.append(simcorr.op_line(*st))
-                out = wrapper.step(*st)
-                outs.append(out)
-                mems.append(st[2])
-                states.append(st)
-                bad = check_step_oracle(st[0], st[1], st[2], out)
-                chk.case(f'{name}:{tbl}', (name, tbl, op, tuple(st[0]), tuple(st[1])),
-                         {'impl': name, 'slot': f'{tbl}:{op:02X}', 'pc': st[1][0], 't': st[1][1]} if op == 0x86 else None)
-                if bad:
-                    chk.violation(f'{bad[0]}:{name}:{tbl}:{op:02X}', f'{name} slot {tbl} {op:02X}: {bad[1]}',
-                                  {'kind': 'step', 'impl': name, 'state': [st[0], st[1], {str(k): v for k, v in st[2].items()}, st[3], st[4]]})
-        model = chk.run_driver(driver, ops)
-        if model is None:
-            continue
-        if is_c:
-            model = [simcorr.final_diff(b, m) for b, m in zip(model, mems)]
-        chk.compare(f'{name} vs generated model ({driver})', ops, [simcorr.norm(a) for a in outs], [simcorr.norm(b) for b in model])
 
 
 def paging(chk, pagingtracer):
